@@ -109,7 +109,7 @@ def where(fn, b):
     return fn.loc(sp) if sp else fn.loc()
 
 
-def guard(cx, rule, inst, fn, P, sinks, match, want_truth, what, require_fail_blocks_sink=True):
+def guard(cx, rule, inst, fn, P, sinks, match, want_truth, what, require_fail_blocks_sink=True, fail_must_pass=None):
     """Generic guard obligation.
     match(pred) -> bool selects the check instances; want_truth is the truth value of the Pred on the passed edge
     (after accounting for pred.neg: we compare the *un-negated* predicate).
@@ -139,7 +139,7 @@ def guard(cx, rule, inst, fn, P, sinks, match, want_truth, what, require_fail_bl
         return False
     if require_fail_blocks_sink:
         for (a, b2) in failing:
-            r = fn.reachable(b2, removed_edges=passed)
+            r = fn.reachable(b2, removed_edges=passed, removed_blocks=set(fail_must_pass or ()))
             bad = [s for s in sinks if s in r]
             if bad:
                 cx.violate(rule, inst, '%s: failing edge bb%d->bb%d of %s still reaches success exit bb%d' % (what, a, b2, fn.short, bad[0]),
@@ -170,3 +170,58 @@ def has_param(e, name):
 
 def has_call(e, suffix):
     return contains(e, lambda x: x.k == 'call' and (fn_is(x.name, suffix) or last(x.name) == suffix))
+
+
+def range_guard(cx, rule, inst, fn, P, sinks, is_value, lo, hi, what, canon=None):
+    """sinks are reachable only with lo <= v <= hi established by dominating comparisons of v with constants
+    (u256_cmp(v, C) op 0, v.is_zero(), v == / != const).  Every recognised comparison is tested as a must-pass
+    guard; the bounds of those that are must-pass are intersected."""
+    INF = 1 << 300
+    elo, ehi = 0, INF
+    used = []
+    for b, p, te, fe in bool_switches(fn, P):
+        bound = None  # (kind, value, truth on which it holds)
+        if p.kind == 'is_zero' and is_value(p.args[0]):
+            cand = [('lo', 1, False)]
+        elif p.kind == 'cmp' and len(p.args) == 2 and is_value(p.args[0]) and const_int(p.args[1]) is not None:
+            c = const_int(p.args[1])
+            cand = {'Lt': [('hi', c - 1, True), ('lo', c, False)], 'Le': [('hi', c, True), ('lo', c + 1, False)],
+                    'Gt': [('lo', c + 1, True), ('hi', c, False)], 'Ge': [('lo', c, True), ('hi', c - 1, False)],
+                    'Eq': [], 'Ne': []}[p.op]
+        elif p.kind == 'cmp' and len(p.args) == 2 and is_value(p.args[1]) and const_int(p.args[0]) is not None:
+            c = const_int(p.args[0])
+            cand = {'Gt': [('hi', c - 1, True), ('lo', c, False)], 'Ge': [('hi', c, True), ('lo', c + 1, False)],
+                    'Lt': [('lo', c + 1, True), ('hi', c, False)], 'Le': [('lo', c, True), ('hi', c - 1, False)],
+                    'Eq': [], 'Ne': []}[p.op]
+        elif p.kind == 'eq' and len(p.args) == 2 and is_value(p.args[0]) and const_int(p.args[1]) == 0:
+            cand = [('lo', 1, False)]
+        else:
+            continue
+        for kind, val, truth in cand:
+            t = truth if not p.neg else (not truth)
+            passed = te if t else fe
+            if not reachable_without(fn, sinks, passed):
+                if kind == 'lo':
+                    elo = max(elo, val)
+                else:
+                    ehi = min(ehi, val)
+                used.append(b)
+    ok = elo >= lo and ehi <= hi
+    w = where(fn, used[0]) if used else (where(fn, sinks[0]) if sinks else fn.loc())
+    est = '[%s, %s]' % (hex(elo), 'unbounded' if ehi == INF else hex(ehi))
+    if ok:
+        cx.hold(rule, inst, '%s: dominating checks at bb%s establish %s within required [%s, %s]' % (what, sorted(set(used)), est, hex(lo), hex(hi)), w)
+    else:
+        cx.violate(rule, inst, '%s: dominating checks establish only %s, required [%s, %s]' % (what, est, hex(lo), hex(hi)), w,
+                   {'established_lo': hex(elo), 'established_hi': None if ehi == INF else hex(ehi)})
+    return ok
+
+
+def aggr_blocks(fn, adt_variant):
+    """blocks containing an aggregate construction `Adt::Variant{..}`; returns list of (block, stmt_idx, rv)"""
+    out = []
+    for b, i, st in fn.stmts():
+        if st['k'] == 'assign' and st['rv']['k'] == 'aggr' and st['rv'].get('akind') == 'adt':
+            if '%s::%s' % (last(st['rv']['adt']), st['rv']['variant']) == adt_variant:
+                out.append((b, i, st['rv']))
+    return out
